@@ -494,10 +494,12 @@ PROPS["C18"] = dict(
            "line, ships process_obj.env, records pid and sentinel, writes the payload and closes the write end; poll() maps the wait status to -signal / exit code for "
            "every status value and caches it, wait() returns None only when the sentinel did not become ready; LokyProcess defaults to init_main_module=False (checked "
            "against the source default), LokyInitMainProcess forces True; get_preparation_data ships a main-module key only when asked and prepare() re-runs __main__ only "
-           "when such a key is present; _adjust_process_count (the single worker spawn site, structural scan) ships initializer, initargs and env; the worker runs the "
-           "initializer before its first get and processes nothing when it raises.",
-    not_covered="what the kernel does with close_fds/pass_fds; the interpreter's own start-up; descriptors opened by the child; _chain_initializers (filtering "
-                "loop over Python lists) is an assumed summary.",
+           "when such a key is present; _adjust_process_count (the single worker spawn site, structural scan) ships initializer, initargs and env; _prepare_initializer rejects a non-"
+           "callable initializer before anything else and otherwise hands the worker the user's initializer with the user's initargs, first in the chain when a "
+           "profiler initializer is added (the chaining helper is executed at its call site, exact unrolling); the worker runs the initializer before its first get "
+           "and processes nothing when it raises.",
+    not_covered="what the kernel does with close_fds/pass_fds; the interpreter's own start-up; descriptors opened by the child; _ChainedInitializer.__call__ "
+                "(calls each chained initializer with its own arguments: a zip over a heap list, not under contract) and the viztracer introspection (third party).",
     assumptions=["A-posix", "A-fds", "A-user", "A-finalize", "A-tracker-stable", "A-spawn"],
     abstractions=EXEC_ABS,
     extra=[scan_worker_spawn_sites],
